@@ -19,6 +19,7 @@ import Flowjaxv.Driver.Losses
 import Flowjaxv.Driver.NetInverse
 import Flowjaxv.Driver.Planar
 import Flowjaxv.Driver.BnafLd
+import Flowjaxv.Driver.BnafGen
 import Flowjaxv.Driver.ElboAd
 import Flowjaxv.Driver.Flows
 import Flowjaxv.Driver.TrainGen
@@ -140,6 +141,11 @@ def dispatch (line : String) : String :=
       | "planar" => planar args
       | "triaff" => triaff args
       | "bnafld" => bnafld args
+      | "gbnafld" => gbnafld args
+      | "gbnafild" => gbnafild args
+      | "gbnaft" => gbnaft args
+      | "gbnaflj" => gbnaflj args
+      | "gactlj" => gactlj args
       | "bnafild" => bnafild args
       | "bnaflj" => bnaflj args
       | "actlj" => actlj args
